@@ -378,3 +378,130 @@ def commutator_norm(a, b):
 
 def algebraic_tol(dim, scale=1.0, c=1e3):
     return c * 2.2e-16 * dim * dim * (1.0 + scale)
+
+
+# ----------------------------------------------------------------------------- physical sets in stacked coordinates
+_T_CACHE = {}
+
+
+def choi_transform(basis):
+    """unitary T with vec(Choi) = T @ vec(HS) for an orthonormal basis (cached by id of first element bytes)."""
+    key = (len(basis), basis[1].tobytes() if len(basis) > 1 else b"")
+    t = _T_CACHE.get(key)
+    if t is None:
+        n = len(basis)
+        t = np.zeros((n * n, n * n), dtype=complex)
+        for a in range(n):
+            for b in range(n):
+                t[:, a * n + b] = np.kron(basis[a], basis[b].conj()).reshape(-1)
+        _T_CACHE[key] = t
+    return t
+
+
+def _blocks(t, x, n, m):
+    if t == "state":
+        return [x]
+    if t == "povm":
+        return [x[i * n:(i + 1) * n] for i in range(m)]
+    if t == "gate":
+        return [x]
+    return [x[i * n * n:(i + 1) * n * n] for i in range(m)]
+
+
+def proj_eq_stacked(t, x, d, m=None):
+    """orthogonal projection onto the (affine) equality set, stacked coordinates, normalised basis with B_0=I/sqrt d."""
+    n = d * d
+    x = np.array(x, dtype=float)
+    if t == "state":
+        x[0] = 1 / math.sqrt(d)
+    elif t == "povm":
+        s = sum(x[i * n:(i + 1) * n] for i in range(m))
+        c = np.zeros(n)
+        c[0] = math.sqrt(d)
+        for i in range(m):
+            x[i * n:(i + 1) * n] -= (s - c) / m
+    elif t == "gate":
+        x[:n] = 0
+        x[0] = 1
+    else:
+        s = sum(x[i * n * n:i * n * n + n] for i in range(m))
+        c = np.zeros(n)
+        c[0] = 1
+        for i in range(m):
+            x[i * n * n:i * n * n + n] -= (s - c) / m
+    return x
+
+
+def proj_ineq_stacked(t, x, basis, d, m=None):
+    """projection onto the product of PSD cones (each rho / E_x / Choi_x), stacked coordinates."""
+    n = d * d
+    x = np.array(x, dtype=float)
+    if t in ("state", "povm"):
+        mm = 1 if t == "state" else m
+        out = []
+        for i in range(mm):
+            mat = unvec(basis, x[i * n:(i + 1) * n])
+            out.append(np.real(vec(basis, psd_clip(mat))))
+        return np.concatenate(out)
+    tm = choi_transform(basis)
+    mm = 1 if t == "gate" else m
+    out = []
+    for i in range(mm):
+        hs = x[i * n * n:(i + 1) * n * n]
+        choi = (tm @ hs).reshape(n, n)
+        out.append(np.real(tm.conj().T @ psd_clip(choi).reshape(-1)))
+    return np.concatenate(out)
+
+
+def eq_defect_stacked(t, x, d, m=None):
+    return float(np.max(np.abs(proj_eq_stacked(t, x, d, m) - np.asarray(x, dtype=float))))
+
+
+def ineq_defect_stacked(t, x, basis, d, m=None):
+    """max negative eigenvalue magnitude over the blocks."""
+    n = d * d
+    worst = 0.0
+    if t in ("state", "povm"):
+        mm = 1 if t == "state" else m
+        for i in range(mm):
+            worst = max(worst, -min_eig(unvec(basis, x[i * n:(i + 1) * n])))
+    else:
+        tm = choi_transform(basis)
+        mm = 1 if t == "gate" else m
+        for i in range(mm):
+            worst = max(worst, -min_eig((tm @ x[i * n * n:(i + 1) * n * n]).reshape(n, n)))
+    return max(0.0, worst)
+
+
+def dykstra_reference(t, x, basis, d, m=None, max_iter=20000, tol=1e-30):
+    """independent Dykstra iteration (matrix-level closed-form projections) run to numerical convergence.
+
+    returns (z, cert) where cert is an a-posteriori bound on ||z - P(x)||: with x - z = p + q, p normal to the affine
+    set and q in the normal cone of the PSD product at z (-q PSD, <q,z>=0), for every feasible c
+    <x-z, c-z> <= -<q,z> + (infeasibility terms), hence ||z-P(x)||^2 <= gap.
+    """
+    x = np.asarray(x, dtype=float)
+    p = np.zeros_like(x)
+    q = np.zeros_like(x)
+    z = x.copy()
+    for _ in range(max_iter):
+        y = proj_eq_stacked(t, z + p, d, m)
+        p = z + p - y
+        z_new = proj_ineq_stacked(t, y + q, basis, d, m)
+        q = y + q - z_new
+        delta = float(np.sum((z_new - z) ** 2))
+        z = z_new
+        if delta <= tol:
+            break
+    # certificate
+    eq_res = float(np.linalg.norm(proj_eq_stacked(t, z, d, m) - z))  # distance to affine set (z is PSD-feasible)
+    # p must be normal to the affine set: its tangential component
+    p_tan = float(np.linalg.norm(proj_eq_stacked(t, p, d, m) - proj_eq_stacked(t, np.zeros_like(p), d, m)))
+    # -q PSD-ness and complementarity
+    negq_def = ineq_defect_stacked(t, -q, basis, d, m)
+    compl = abs(float(np.dot(q, z)))
+    resid = float(np.linalg.norm(x - z - p - q))
+    scale = 1.0 + float(np.linalg.norm(x))
+    gap = compl + scale * (eq_res + p_tan + resid) + scale * negq_def * math.sqrt(len(x))
+    return z, {"eq_res": eq_res, "p_tan": p_tan, "negq": negq_def, "compl": compl, "resid": resid,
+               "err_bound": math.sqrt(max(gap, 0.0))}
